@@ -32,6 +32,8 @@ def tasks(tier):
     t += [_tm.T(f"subclasscheck/meaning[{k}]", mro_c.t_sc_meaning(k)) for k in mro_c.C13_KINDS]
     t += [_tm.T(f"subclasscheck/dependent_applicable_iff_bound[{k}]", mro_c.t_sc_dependent(k)) for k in mro_c.DEP]
     t += [_tm.T("DependentType.__instancecheck__", mro_c.t_dep_instancecheck)] + _tm.wrap_tasks()
+    # two types that compare equal are filed as ONE signature: equality must imply the same accepted arguments
+    t += [_tm.T(f"eq/sound[{a},{b}]", mro_c.t_eq_sound(a, b)) for a in mro_c.DEP for b in mro_c.DEP]
     return t
 
 
